@@ -11,7 +11,7 @@ Definition run_splitws (e : sexp) : option sexp :=
   | _ => None
   end.
 
-(* (become (passwd (xNAME UID GID)...) (cur UID GID) (task BECOME xUSER ISCOMMAND TRANSFER))
+(* (become (passwd (xNAME UID GID)...) (cur UID GID) (global GBECOME xGUSER) (task TBECOME xTUSER|none ISCOMMAND TRANSFER))
    -> (PATH (module UID GID | none) (main UID GID)) *)
 Definition dec_user (e : sexp) : option user :=
   match e with
@@ -21,20 +21,24 @@ Definition dec_user (e : sexp) : option user :=
   | _ => None
   end.
 Definition show_creds (c : creds) : list sexp := [show_N (c_uid c); show_N (c_gid c)].
+Definition dec_ouser (e : sexp) : option (option string) :=
+  match e with Atom "none" => Some None | x => option_map Some (atom_bytes x) end.
 Definition run_become (e : sexp) : option sexp :=
   match e with
-  | SList [Atom "become"; SList (Atom "passwd" :: us); SList [Atom "cur"; cu; cg]; SList [Atom "task"; b; u; ic; tp]] =>
-      match map_opt dec_user us, atom_N cu, atom_N cg, atom_bool b, atom_bytes u, atom_bool ic, atom_bool tp with
-      | Some db, Some cu, Some cg, Some b, Some u, Some ic, Some tp =>
+  | SList [Atom "become"; SList (Atom "passwd" :: us); SList [Atom "cur"; cu; cg]; SList [Atom "global"; gb; gu];
+           SList [Atom "task"; b; u; ic; tp]] =>
+      match map_opt dec_user us, atom_N cu, atom_N cg, atom_bool gb, atom_bytes gu, atom_bool b, dec_ouser u, atom_bool ic, atom_bool tp with
+      | Some db, Some cu, Some cg, Some gb, Some gu, Some b, Some u, Some ic, Some tp =>
           let cur := {| c_uid := cu; c_gid := cg |} in
-          let p := {| b_become := b; b_user := u; b_is_command := ic; b_transfer_pid := tp |} in
+          let g := {| g_become := gb; g_user := gu |} in
+          let p := {| b_become := effective_become g b; b_user := effective_user g u; b_is_command := ic; b_transfer_pid := tp |} in
           Some (SList [Atom (match path_of db cur p with
                              | InProcess => "in-process" | ForkedChild => "forked-child"
                              | DropThenExec => "drop-then-exec" | UserNotFound => "user-not-found" end);
                        match module_creds db cur p with
                        | Some c => SList (Atom "module" :: show_creds c) | None => Atom "none" end;
                        SList (Atom "main" :: show_creds (main_creds_after db cur p))])
-      | _, _, _, _, _, _, _ => None
+      | _, _, _, _, _, _, _, _, _ => None
       end
   | _ => None
   end.
